@@ -179,6 +179,12 @@ func checkC01(c *Ctx) {
 			detail = "the AddMessage site is nested in " + string(rune('0'+len(hs))) + " loops; exactly one (over the destination mailboxes) is required"
 		} else {
 			ranged := rangedBy(hs[0])
+			if prm, isP := ranged.(*ssa.Parameter); isP {
+				// the loop sits in a helper that is handed the list (storeEach(inbound.Mailboxes, …))
+				if act := eng.StripConv(p.Actual(prm)); eng.SameField(eng.LoadedField(act), fMailboxes) {
+					ranged = act
+				}
+			}
 			if ranged != nil && eng.SameField(eng.LoadedField(ranged), fMailboxes) {
 				base := ranged.(*ssa.UnOp).X.(*ssa.FieldAddr).X
 				postHook = base
@@ -872,9 +878,12 @@ func (c *Ctx) c01Meta(deliver *ssa.Function, adds []*ssa.Call, anchor ssa.Instru
 			// element of the ranged Mailboxes
 			okMb := false
 			if u, ok := p.Actual(st.Val).(*ssa.UnOp); ok {
-				if ia, ok := u.X.(*ssa.IndexAddr); ok && eng.SameField(eng.LoadedField(ia.X), fMailboxes) && isRangeCounter(ia.Index) && len(loopHeaders(ia.Block())) == 1 {
-					if sameMsg(p.Actual(ia.X.(*ssa.UnOp).X.(*ssa.FieldAddr).X)) {
-						okMb = true
+				if ia, ok := u.X.(*ssa.IndexAddr); ok {
+					list := eng.StripConv(p.Actual(ia.X)) // the list may be a parameter of the helper holding the loop
+					if eng.SameField(eng.LoadedField(list), fMailboxes) && isRangeCounter(ia.Index) && len(loopHeaders(ia.Block())) == 1 {
+						if sameMsg(p.Actual(list.(*ssa.UnOp).X.(*ssa.FieldAddr).X)) {
+							okMb = true
+						}
 					}
 				}
 			}
@@ -894,7 +903,22 @@ func (c *Ctx) c01Meta(deliver *ssa.Function, adds []*ssa.Call, anchor ssa.Instru
 			}
 		}
 	}
-	eng.EachInstr(anchor.Parent(), func(in ssa.Instruction) {
+	// where the record is built: the function holding the anchor, or the function literal the
+	// record comes from when the anchor's function asks a callback for it (delivery := build(mb))
+	unit := anchor.Parent()
+	if ac, ok := anchor.(*ssa.Call); ok && len(ac.Call.Args) > 0 {
+		if bc, ok := resolveCell(eng.Unwrap(ac.Call.Args[len(ac.Call.Args)-1])).(*ssa.Call); ok {
+			if prm, isP := bc.Call.Value.(*ssa.Parameter); isP {
+				if b, _, ok := eng.FuncValueOf(p.Actual(prm)); ok && b != nil && len(b.Blocks) > 0 {
+					unit = b
+				}
+			}
+		}
+	}
+	before := func(st ssa.Instruction) bool {
+		return st.Parent() != anchor.Parent() || eng.Dominates(st, anchor)
+	}
+	eng.EachInstr(unit, func(in ssa.Instruction) {
 		st, ok := in.(*ssa.Store)
 		if !ok {
 			return
@@ -903,7 +927,7 @@ func (c *Ctx) c01Meta(deliver *ssa.Function, adds []*ssa.Call, anchor ssa.Instru
 		if !ok {
 			return
 		}
-		if eng.SameField(eng.FieldOfAddr(fa), fMeta) && eng.Dominates(st, anchor) {
+		if eng.SameField(eng.FieldOfAddr(fa), fMeta) && before(st) {
 			// the whole record copied from a local template whose fields are set beforehand
 			// (meta := MessageMetadata{…}; meta.Mailbox = mb; Meta: meta)
 			if u, ok := st.Val.(*ssa.UnOp); ok {
@@ -954,7 +978,7 @@ func (c *Ctx) c01Meta(deliver *ssa.Function, adds []*ssa.Call, anchor ssa.Instru
 		if !ok || !eng.SameField(eng.FieldOfAddr(outer), fMeta) {
 			return
 		}
-		if !eng.Dominates(st, anchor) {
+		if !before(st) {
 			return
 		}
 		checkField(eng.FieldOfAddr(fa).Name(), st)
